@@ -177,7 +177,8 @@ def soft_hold_typestate(P, R, rule):
                 if fw.site_writes(s, MASK) or fw.site_writes(s, SOFT):
                     if i or pend == 'p' and z != 'n':
                         problems.append((s, 'call that moves the holds made in the middle of a take/release step'))
-                    return ('u', 0, None if pend != 'p' else pend)
+                    # a clear whose outcome has been looked at (the mask is known non-empty: nothing to release) is settled
+                    return ('u', 0, 'p' if (pend == 'p' and z != 'n') else None)
             return st
 
         before, at_exit, sin, bout = f.forward(('u', 0, None), on_event, on_edge)
